@@ -20,7 +20,8 @@ def make_dataset(rnd, size, uid):
     ds.PatientName = 'Name^' + 'x' * rnd.choice([0, 1, 2, 7])           # odd / even lengths
     ds.PatientID = 'I' * rnd.choice([1, 2, 3])
     ds.Rows = rnd.randrange(65536)
-    ds.add_new(0x00420011, 'OB', bytes(rnd.randrange(256) for _ in range(size + size % 2)))     # Encapsulated Document
+    blob = rnd.randbytes(size + size % 2) if size > 100000 else bytes(rnd.randrange(256) for _ in range(size + size % 2))
+    ds.add_new(0x00420011, 'OB', blob)     # Encapsulated Document
     if rnd.random() < 0.6:
         item = pydicom.Dataset(); item.ReferencedSOPClassUID = IMG; item.ReferencedSOPInstanceUID = '1.2.3.%d' % rnd.randrange(99)
         inner = pydicom.Dataset(); inner.CodeValue = 'C%d' % rnd.randrange(9); item.PurposeOfReferenceCodeSequence = pydicom.Sequence([inner])
@@ -97,8 +98,14 @@ def stack_case(case):
         srv.supported_scp.update({IMG: svc})
         srv.update_context_def_list([IMG], True)
         cli = aem.ClientAE('CLI', supported_ts=[ts], max_pdu_length=case['cli_max']).add_scu(sc.storage_scu, [IMG])
-        cli.timeout = 10
+        cli.timeout = case.get('timeout', 10)
         dss = [make_dataset(rnd, case['sizes'][k], case['uids'][k]) for k in range(len(case['uids']))]
+        for k, ds in enumerate(dss):
+            if (k + case['seed']) % 2 and case['source'] == 'memory':
+                # a data set that remembers another syntax (read from a file, or sent before on another context): what
+                # counts is the syntax negotiated for this association
+                ds.is_implicit_VR = not ts.is_implicit_VR
+                ds.is_little_endian = True
 
         def body(assoc):
             out = []
@@ -203,6 +210,11 @@ def run(chk):
         cases.append({'kind': 'stack', 'seed': seed, 'ts': i % 3, 'cli_max': cli_max, 'srv_max': srv_max, 'uids': uids, 'sizes': sizes,
                       'source': ['memory', 'file'][i % 2], 'sink': ['dir', 'tmp'][(i // 2) % 2],
                       'outcomes': [rnd.choice([0, 0, 0xB000, 0xB007, 0xA700, 'err']) for _ in range(k)]})
+    # one data set far larger than the rest, with the library's default timeout and a common PDU size: a healthy peer on
+    # loopback must get it (400+ fragments)
+    seed += 1
+    cases.append({'kind': 'stack', 'seed': seed, 'ts': 0, 'cli_max': 16384, 'srv_max': 16384, 'uids': ['1.2.840.99.1'], 'sizes': [6000000],
+                  'source': 'memory', 'sink': 'tmp', 'outcomes': [0], 'timeout': 15})
     results = common.bounded_map(guarded, cases, min(8, os.cpu_count() or 1), 300)
     for case, v in zip(cases, results):
         if v and v.startswith('harness:'):
